@@ -235,6 +235,20 @@ example : keyWf "20x".toList = true ∧ keyMatches "20x".toList 204 = true ∧ k
 example : plainMedia "Application/JSON ; charset=\"a;b\"".toList = true ∧
     parseMedia "Application/JSON ; charset=\"a;b\"".toList = some ("application".toList, "json".toList) := by decide
 
+example : parseMedia "application/json;charset=utf-8".toList = parseMedia "application/json".toList := by decide
+
+/-- `body_exact_repaired` is not vacuous: a readable JSON Content-Type, and the body aspect deviates -/
+example :
+    let r : Resp := ⟨204, some "application/json".toList, [("x-rate".toList, "7".toList)], some (.obj [])⟩
+    keysWf docRange = true ∧ docMediaWf docRange = true ∧ plainMedia "application/json".toList = true ∧
+    refParse "application/json".toList = some ("application".toList, "json".toList) ∧
+    devBody V0 docRange r = true ∧ bodyCheck V0 Variants.allRepaired docRange r = .ok [.bodySchema] := by decide
+
+/-- `headers_exact_repaired`: typed header read through the string coercion -/
+example :
+    devHeaders V0 docRange ⟨200, none, [("x-rate".toList, "abc".toList)], none⟩ = true ∧
+    devHeaders V0 docRange ⟨200, none, [("x-rate".toList, "42".toList)], none⟩ = false := by decide
+
 /-- without the hypothesis of `parse_plain` the two readings differ -/
 example : parseMedia "a/\"b;c\"".toList ≠ refParse "a/\"b;c\"".toList := by decide
 
